@@ -47,6 +47,27 @@ pub fn scan(backend: u8, class: u8, buf: &[u8]) -> Option<usize> {
     }
 }
 
+/// Like `scan`, but the cursor has already moved `pre` bytes into `buf` (without committing), as
+/// it has when the parser enters a scanner in the middle of a token or after a fold.
+pub fn scan_from(backend: u8, class: u8, buf: &[u8], pre: usize) -> Option<usize> {
+    let mut b = Bytes::new(buf);
+    // SAFETY: pre <= buf.len() (checked by the caller)
+    unsafe { b.advance(pre) };
+    if backend == B_NEON {
+        match class {
+            0 => crate::neon_host::neon::match_uri_vectored(&mut b),
+            1 => crate::neon_host::neon::match_header_value_vectored(&mut b),
+            _ => crate::neon_host::neon::match_header_name_vectored(&mut b),
+        }
+        return Some(b.pos());
+    }
+    if httparse::_verif::scan(backend, class, &mut b) {
+        Some(b.pos())
+    } else {
+        None
+    }
+}
+
 pub fn expected(class: u8, buf: &[u8]) -> usize {
     buf.iter().position(|&b| !in_class(class, b)).unwrap_or(buf.len())
 }
@@ -88,11 +109,39 @@ fn check(ck: &mut Checker, backend: u8, class: u8, data: &[u8], place: Place) {
     }
 }
 
+/// A scan entered `pre` bytes into the buffer. The journal / replay encoding carries `pre` in the
+/// backend byte's high bits (backend | pre << 3, pre <= 31).
+fn check_from(ck: &mut Checker, backend: u8, class: u8, data: &[u8], pre: usize, place: Place) {
+    debug_assert!(pre <= 31 && pre <= data.len());
+    let code = backend | ((pre as u8) << 3);
+    let lane = pseudo_lane(code, class, place);
+    let mut enc = lane.encode();
+    enc[0] = 100 + class;
+    ck.caller.slot.begin(&enc, data);
+    let buf = ck.caller.inputs.place(data, place);
+    let got = std::panic::catch_unwind(|| scan_from(backend, class, buf, pre));
+    ck.caller.slot.end();
+    ck.stats.nodes += 1;
+    ck.caller.calls += 1;
+    let exp = pre + expected(class, &data[pre..]);
+    let got = match got {
+        Ok(Some(g)) => g,
+        Ok(None) => return,
+        Err(_) => {
+            report(ck, code, class, data, place, format!("the scanner panicked (entered {} bytes into the buffer)", pre), exp);
+            return;
+        }
+    };
+    if got != exp {
+        report(ck, code, class, data, place, format!("entered {} bytes into the buffer, stopped at {}", pre, got), exp);
+    }
+}
+
 fn report(ck: &mut Checker, backend: u8, class: u8, data: &[u8], place: Place, got: String, exp: usize) {
     let lane = pseudo_lane(backend, class, place);
     ck.relation_tag = "scan";
     ck.violation(
-        format!("{} scanner for the {} class {}, first out-of-class byte (or end) is at {}", BACKEND_NAMES[backend as usize], CLASS_NAMES[class as usize], got, exp),
+        format!("{} scanner for the {} class {}, first out-of-class byte (or end) is at {}", BACKEND_NAMES[(backend & 7) as usize], CLASS_NAMES[class as usize], got, exp),
         &lane, data, got, format!("stop at {}", exp), None,
     );
     ck.relation_tag = "none";
@@ -200,6 +249,42 @@ pub fn add_grids(p: &mut Plan, q: bool, boundary_words: bool) {
         }
     }
     p.phases.push(Phase { label: format!("S3: all pairs of offending positions, {} lengths × 4×4 offending bytes", lens.len()), backend: Backend::Native, tasks });
+    // scanners entered with a cursor that is not at the start of the buffer (the value scanner
+    // after the first value byte, after a fold; any scanner after earlier tokens): what lies
+    // before the cursor — including line ends — must not matter, and must not be read past
+    let mut tasks: Vec<TaskFn> = Vec::new();
+    let prefixes: [&[u8]; 6] = [b"v", b"\r\n", b"a:\r\n\t", b"GET /", b"vvvvvvvvvvvvvvv\r\n", b"N: vvvvvvvvvvvvvvvvvvvvvvv\r\n \t"];
+    for class in 0..3u8 {
+        for backend in backends_for(class) {
+            for place in [Place::EndFlush, Place::StartFlush, Place::Hostile(0), Place::Hostile(5)] {
+                tasks.push(Box::new(move |ck: &mut Checker| {
+                    let filler = fillers(class)[0];
+                    let bad: [u8; 6] = [0x00, 0x7f, b' ', b'\r', b'\n', b':'];
+                    let mut buf = Vec::new();
+                    for pre in prefixes {
+                        for l in 0..=72usize {
+                            buf.clear();
+                            buf.extend_from_slice(pre);
+                            buf.resize(pre.len() + l, filler);
+                            check_from(ck, backend, class, &buf, pre.len(), place);
+                            for pos in 0..l {
+                                for &v in &bad {
+                                    buf[pre.len() + pos] = v;
+                                    check_from(ck, backend, class, &buf, pre.len(), place);
+                                }
+                                buf[pre.len() + pos] = filler;
+                            }
+                            if ck.full() {
+                                return;
+                            }
+                        }
+                    }
+                }));
+            }
+        }
+    }
+    p.phases.push(Phase { label: "S3: scanners entered 1..31 bytes into the buffer (6 prefixes incl. line ends) × L≤72 × position × 6 offending bytes × 4 placements".into(), backend: Backend::Native, tasks });
+    p.bounds.push("S3 non-fresh cursor: every scanner entered after 6 different already-consumed prefixes (1..31 bytes, some containing CR LF), run length 0..=72, offending byte at every position, placements end-flush / start-flush / hostile".into());
     // every pair of byte values at adjacent positions (carries / borrows between neighbouring
     // lanes of the word-at-a-time tricks, lane shuffles of the vector scanners)
     let mut tasks: Vec<TaskFn> = Vec::new();
@@ -280,7 +365,8 @@ pub fn add_grids(p: &mut Plan, q: bool, boundary_words: bool) {
 }
 
 pub fn replay(text: &str) -> i32 {
-    let backend = json::get_num(text, "config").unwrap_or(0) as u8;
+    let code = json::get_num(text, "config").unwrap_or(0) as u8;
+    let (backend, pre) = (code & 7, (code >> 3) as usize);
     let class = (json::get_num(text, "capacity").unwrap_or(100) - 100) as u8;
     let place = match json::get_num(text, "place").unwrap_or(0) {
         0 => Place::EndFlush,
@@ -293,8 +379,11 @@ pub fn replay(text: &str) -> i32 {
     let buf = arena.place(&data, place);
     println!("replaying scan: backend={} class={} placement={:?}", BACKEND_NAMES[backend as usize], CLASS_NAMES[class as usize], place);
     println!("  input   : {} ({})", printable(&data), hex(&data));
-    let got = scan(backend, class, buf);
-    let exp = expected(class, &data);
+    let got = if pre > 0 && pre <= data.len() { scan_from(backend, class, buf, pre) } else { scan(backend, class, buf) };
+    let exp = if pre > 0 && pre <= data.len() { pre + expected(class, &data[pre..]) } else { expected(class, &data) };
+    if pre > 0 {
+        println!("  (scanner entered {} bytes into the buffer)", pre);
+    }
     println!("  stopped : {:?}   expected: {}", got, exp);
     if class < 3 && data.len() == 1 {
         let b = data[0];
